@@ -39,7 +39,7 @@ def gen_configs(rng, n, quick=True, evaluators=("map",), names=None, kinds=None,
         if not tracer.applicable(name, spec):
             continue
         out.append({"name": name, "spec": spec, "seed": rng.randrange(2 ** 31), "size": rng.choice(sizes),
-                    "evaluator": rng.choice(evaluators), "explicit": rng.random() < 0.35, "extreme": extreme,
+                    "evaluator": rng.choice(evaluators), "explicit": rng.random() < 0.35 or spec.kind == "mixed", "extreme": extreme,
                     "op_seed": rng.randrange(2 ** 31), "injected": rng.choice([0, 0, 0, 2])})
     return out
 
